@@ -23,18 +23,18 @@ SPEC = dict(
                what="the channelRisks literal and the two defaults of Channel.Clean in snap/channel/channel.go")],
     drivers=[
         dict(name="channel", kind="main", pkg="./zzverif/c34",
-             n=dict(quick=1200, thorough=40000), timeout=dict(quick=300, thorough=1800),
+             n=dict(quick=800, thorough=40000), timeout=dict(quick=300, thorough=1800),
              ev=dict(requires=["V.lib.Bytes", "V.models.Channel"], case_type="Channel.case",
                      mismatch="Channel.mismatch", monitor="Channel.monitor_fail")),
     ],
     classify=classify,
     rule=("parse: EVERY string of 1..3 components over the vocabulary {'', latest, stable, candidate, beta, edge, foo, 1.0, "
-          "hotfix} joined by '/' and every 4-component string over {'', latest, stable, edge, foo, 1.0} (thorough: 1..5 "
+          "hotfix} joined by '/' and every 4-component string over {'', latest, stable, edge, foo} (thorough: 1..5 "
           "components over all nine words), each through ParseVerbatim, Parse, Channel.String/Full/Clean, "
           "Parse(String()) and top-level Full, with the architecture argument rotating over amd64/arm64/-/''/riscv64/x; "
           "clean: Channel values with track, risk, branch each over {'', latest, stable, edge, foo, a/b}; resolve: ALL pairs "
           "(cur of 1..3 components, new of 1..2 components) and pinned: ALL pairs (track of 1..2, new of 1..3 components) "
-          "over {'', latest, stable, edge, foo} (new of Resolve also 1.0; pinned: {'', latest, edge, foo, foox}; thorough: the 9-word vocabulary plus foox); plus a random stream (odd spellings, "
+          "over {'', latest, stable, edge, foo} (pinned: {'', latest, edge, foo, foox}; thorough: the 9-word vocabulary plus foox); plus a random stream (odd spellings, "
           "non-ASCII, doubled slashes, up to 6 components) through all four. Non-trivial = accepted parse / Clean changed "
           "something / Resolve inherited the track / pinned track valid."),
     exhaustive=dict(quick=True, thorough=True),
